@@ -27,7 +27,7 @@ BOUNDS = {"quick": {"path_segments": 3, "param_bytes": "all1+pairs", "headers": 
 
 METHODS = (b"GET", b"POST", b"M-SEARCH", b"get")
 SEGS = (b"", b"a", b".", b"-", b"_", b"~", b"%41", b";", b"=", b":", b"@", b"a;b=c")
-HEADERS = ((b"Host", b"h.example"), (b"Cookie", b"a=b: c"), (b"X-Trail", b"v  "), (b"Accept", b"*/*"), (b"X-Empty", b""), (b"x-bin", b"\x00\xff\x80"))
+HEADERS = ((b"Content-Length", b"3"), (b"Host", b"h.example"), (b"Cookie", b"a=b: c"), (b"X-Trail", b"v  "), (b"Accept", b"*/*"), (b"X-Empty", b""), (b"x-bin", b"\x00\xff\x80"))
 BODIES = (b"", b"text", b"a\r\n\r\nb", b"\x00\x00", bytes(range(256)), b"\r\n", b"\r\n\r\n")
 
 
@@ -148,6 +148,11 @@ def chunk_req_headers(chunk, acc):
             for body in BODIES if n <= 1 else BODIES[:3]:
                 for params in ([], [(b"q", b"1")]):
                     check_request(acc, b"GET", b"/h", params, list(hs), body)
+    # header maps and bodies are independent: a Content-Length that is smaller / larger than the body, or zero
+    for cl in (b"0", b"1", b"16", b"999999", b"-1", b"abc"):
+        for body in BODIES:
+            acc.states += 1
+            check_request(acc, b"POST", b"/h", [], [(b"Content-Length", cl), (b"Host", b"h")], body)
     acc.sample({"headers": [[k.decode(), v.decode("latin-1")] for k, v in HEADERS[:3]], "body": "a\\r\\n\\r\\nb"})
 
 
@@ -158,7 +163,7 @@ def chunk_resp(chunk, acc):
         for reason in (b"OK", b"Not-Found", b"x", b"200"):
             for version in (b"HTTP/1.1", b"HTTP/1.0", b"http/1.1"):
                 for n in range(0, 3):
-                    for hs in itertools.permutations(HEADERS[:4], n):
+                    for hs in itertools.permutations(HEADERS[:5], n):
                         acc.states += 1
                         for body in BODIES if n <= 1 and version == b"HTTP/1.1" else BODIES[:2]:
                             raw = H.serialize_response(status, reason, list(hs), body, version=version)
